@@ -113,6 +113,27 @@ def d_model2_clash(o1, o2):
     return f
 
 
+def d_models_interleaved(t):
+    """Two models whose rows are not model-major: chain A of model 1, chain A of model 2, chain B of model 1, chain B of model 2
+    (mmCIF does not fix the row order of atom_site; the PDB emitter regroups by model, as the format requires)."""
+    if any(a["model"] != 1 for a in t):
+        return False
+    base = [dict(a) for a in t]
+    out = []
+    for ch in ("A", "B"):
+        for m in (1, 2):
+            for a in base:
+                if a["chain"] != ch:
+                    continue
+                b = dict(a)
+                b["model"] = m
+                if m == 2:
+                    b["x"] = "%.3f" % (float(a["x"]) + 7.0)
+                out.append(b)
+    t[:] = out
+    _renumber(t)
+
+
 def d_altloc(o1, o2):
     def f(t):
         a = t[1]
@@ -202,6 +223,7 @@ def deviations():
     d += [d_hetatm, d_names, d_noocc]
     # added after the second wave of seeded changes (C08-c, C08-d): appended so that earlier indices (replay files) stay valid
     d += [d_same_name, d_icode_run, d_model2_clash("0.30", "0.70"), d_model2_clash("0.70", "0.30")]
+    d += [d_models_interleaved]
     return d
 
 
